@@ -351,6 +351,38 @@ pub struct Shared {
     pub use_tokens: bool,
     pub nmodels: usize,
     pub qualified: Vec<String>,
+    /// worker threads (other than the driver's) that ran a handler / that have exited since (C19)
+    pub threads_seen: AtomicUsize,
+    pub threads_exited: Arc<AtomicUsize>,
+}
+
+thread_local! {
+    /// set on the threads of the harness that drive simulations
+    pub static IS_DRIVER: std::cell::Cell<bool> = const { std::cell::Cell::new(false) };
+    static EXIT_GUARD: std::cell::RefCell<Option<ExitGuard>> = const { std::cell::RefCell::new(None) };
+}
+
+struct ExitGuard(Arc<AtomicUsize>);
+impl Drop for ExitGuard {
+    fn drop(&mut self) {
+        self.0.fetch_add(1, Ordering::SeqCst);
+    }
+}
+
+/// Registers the current (worker) thread: its exit will be counted.
+fn note_thread(s: &Shared) {
+    if IS_DRIVER.with(|d| d.get()) {
+        return;
+    }
+    EXIT_GUARD.with(|g| {
+        let mut g = g.borrow_mut();
+        let same = matches!(&*g, Some(x) if Arc::ptr_eq(&x.0, &s.threads_exited));
+        if !same {
+            // a worker thread belongs to one simulation for its whole life
+            s.threads_seen.fetch_add(1, Ordering::SeqCst);
+            *g = Some(ExitGuard(s.threads_exited.clone()));
+        }
+    });
 }
 
 impl Shared {
@@ -381,6 +413,8 @@ fn thread_id() -> u64 {
 
 // ---------------------------------------------------------------------------
 // The scripted model.
+
+pub const SPIN_MAX_MS: u64 = 900;
 
 pub struct CustomPayload(pub u64);
 
@@ -418,6 +452,7 @@ impl Node {
     }
 
     fn begin(&mut self, kind: HKind, m: &Msg, cx: &Context<Self>) {
+        note_thread(&self.shared);
         if self.shared.vclock {
             merge_vc(&mut self.vc, &m.vc);
             self.vc[self.idx as usize + 1] += 1;
@@ -544,7 +579,10 @@ impl Node {
                 },
                 Op::Spin { gate } => {
                     let g = &self.shared.gates[*gate as usize % self.shared.gates.len()];
-                    while !g.load(Ordering::SeqCst) {
+                    // bounded: an overrun that outlives the harness would hang the join of
+                    // the worker threads (the exclusion stated in C19), not the library
+                    let t0 = std::time::Instant::now();
+                    while !g.load(Ordering::SeqCst) && t0.elapsed() < Duration::from_millis(SPIN_MAX_MS) {
                         std::thread::sleep(Duration::from_micros(200));
                     }
                     OpRes::Other
@@ -957,6 +995,8 @@ pub fn build(bench: &Bench, exec: &Exec, opts: &BuildOpts, start: i64) -> Built 
         use_tokens: bench.tokens,
         nmodels: n,
         qualified,
+        threads_seen: AtomicUsize::new(0),
+        threads_exited: Arc::new(AtomicUsize::new(0)),
     });
 
     let mailboxes: Vec<Mailbox<Node>> = bench
